@@ -34,7 +34,7 @@ TECHNIQUE = 'history check on the live object (differential run against an in-or
 SHARD_TIMEOUT = {'quick': 500, 'thorough': 3000}
 
 NSHARDS = 16
-COUNTS = {'quick': 30, 'thorough': 400}
+COUNTS = {'quick': 60, 'thorough': 500}
 FAMS = ['exp', 'osc', 'ysq', 'ysqm', 'tri', 'cosx', 'xy', 'poly']
 PRECS_Q = [30, 40, 53, 64, 80, 100, 113]
 PRECS_T = [30, 40, 53, 64, 80, 100, 113, 150, 200]
@@ -298,7 +298,16 @@ def run_case(mp, rec, spec):
         guard = Fr(1, 1 << 20)
         if ratio > 1 + guard:
             where = 'x0' if xq == x0 else 'x>x0'
-            rec.violation('C34/accuracy/%s/%s' % (where, 'user-tol' if spec['tolk'] else 'default-tol'),
+            key = 'C34/accuracy/%s/%s' % (where, 'user-tol' if spec['tolk'] else 'default-tol')
+            # mechanism (read from the live object): the highest Taylor coefficient of the FIRST segment is exactly zero for a
+            # solution whose series does not terminate -> the step-size rule is skipped and the segment is given radius 1/2
+            try:
+                sd = closure_var(fA, 'series_data')
+                if fam != 'poly' and sd and all(not s[-1] for s in sd[0][0]):
+                    key = 'C34/accuracy/first-segment-top-coefficient-zero'
+            except Exception:
+                pass
+            rec.violation(key,
                           'odefun value differs from the closed-form solution by more than the requested tolerance',
                           dict(spec, at=list(xr), q=q), observed={'err_over_tol': flo(ratio), 'value': [flo(g) for g in got]},
                           expected=[flo(v) for v in V], severity=round(math.log2(flo(ratio)), 1))
